@@ -496,33 +496,46 @@ end unrequired
 section onemodule
 open Sem.HeapU
 
-/-- **What remains for a required module: the call-site leaf.** In the context `bcx` (watched locals `M` ↦ cell 0
-on the left, `__ref_require` ↦ cell 2 on the right; invariant = the private objects of both preludes + the coupling
-of the two caches) the accessor call and the textbook require of `a` are related, for every closure-body relation. -/
+/-- **The call-site leaf.** In the context `bcx` (watched locals `M` ↦ cell 0 on the left, `__ref_require` ↦ cell 2
+on the right; invariant = the private objects of both preludes + the coupling of the two caches + the two module
+functions are RELATED closures) the accessor call and the textbook require of `a` are related, for every
+closure-body relation. -/
 def LeafSound (M a : String) (BL BR : Block) : Prop :=
   ∀ Q, QRefl Q → SoundE Q (bcx M a BL BR) (D1 M) (accessorCall M a) (refCall a)
 
-/-- **`bundle_refines_of_leaf`** — ONE bundled module `a` (arbitrary source `B`), REQUIRED anywhere in an arbitrary
-entry source (top level, inside closures, loops, …; any number of times): IF the call-site leaf is sound
-(`LeafSound`), the bundle and the reference program have the same outcome at every level ≥ 1.
-Everything else is proved here with `Sem.HeapU`: both preludes run concretely and only extend the heap, the new
-objects become private (`bump`), the context with the invariant is entered (`rebase`, `establish_I`), the two
-top-level environments satisfy `EnvOK` with the watched bindings, the two programs are the two images of one source
-(`subB_vr`), `fundB`, `observe_of_soundB`. -/
-theorem bundle_refines_of_leaf {N : NumOps} (ρ : ExtOracle N) (hρ : OracleFlat ρ) (externs : List String)
+/-- **The call-site leaf holds, whatever the two module bodies are** (`C05/Leaf.lean`): at levels 0 and 1 both calls
+time out; at level ≥ 2 either both caches hold a box (related contents, `Coupled`) or both are empty — then both
+sides allocate their temporaries (content-PINNED, so that they survive the bodies), the wrapper `__modImpl` and the
+module function of the reference program — RELATED closures by the invariant — are called through the call handler
+of level − 1 (`POK.lower`), failures and timeouts propagate identically, and on success both sides box the first
+result and store the box in their cache (two private writes in one step), which re-establishes the invariant. -/
+theorem leafSound (M a : String) (BL BR : Block) (hac : bytesOf a ≠ bytesOf "cache") (hMv : M ≠ "v")
+    (hMI : M ≠ implName) : LeafSound M a BL BR :=
+  fun _ _ => leaf_sound M a BL BR (fun h => hac h.symm) hMv hMI
+
+/-- **`bundle_refines_one_module`** — UNCONDITIONAL: one bundled module `a` with an ARBITRARY source `B` (it may
+itself call `require` of `a`, anywhere), REQUIRED anywhere in an arbitrary entry source (top level, inside closures,
+loops, conditionals; any number of times, or never): the bundle and the program with the textbook `require` have
+the same outcome — same values, same trace, same error, or both out of budget — at every level ≥ 1, for every flat
+oracle. Sources must not mention the names of the generated code.
+Proof (`Sem.HeapU`): both preludes run concretely and only extend the heap, the new objects become private (`bump`)
+except the two module functions, which enter the relation as a closure pair whose bodies are the two `subB` images
+of `B` (`srel_rebaseF`, `subB_vr`); the invariant holds (`establish_I`); the two top-level environments satisfy
+`EnvOK` with the watched bindings; the two programs are the two images of the entry source (`subB_vr`) with the
+call-site leaf `leafSound` at every rewritten call; `fundB`, `observe_of_soundB`. -/
+theorem bundle_refines_one_module {N : NumOps} (ρ : ExtOracle N) (hρ : OracleFlat ρ) (externs : List String)
     (I : BundleInput) (a : String) (B : Block) (n : Nat)
     (hmods : I.mods = [(a, B)])
     (hres : ∀ lit nm, I.res lit = some nm → nm = a)
     (hMv : I.M ≠ "v") (hMI : I.M ≠ implName)
     (hMr : I.M ≠ "__ref_require" ∧ I.M ≠ "__ref_modules" ∧ I.M ≠ "__ref_loaded")
     (hac : bytesOf a ≠ bytesOf "cache")
-    (hentry : NoRefB (D1 I.M) I.entry)
-    (hleaf : LeafSound I.M a (subB I.matcher true B) (subB I.matcher false B)) :
+    (hentry : NoRefB (D1 I.M) I.entry) (hB : NoRefB (D1 I.M) B) :
     runProgram ρ (n + 1) externs I.bundle = runProgram ρ (n + 1) externs I.reference := by
   let BL := subB I.matcher true B
   let BR := subB I.matcher false B
   let cx := bcx I.M a BL BR
-  -- the two programs are the two images of the entry source
+  -- every rewritten call site is the leaf
   have hleaf' : ∀ e p, I.matcher e = some p → NoRefE (D1 I.M) e → VR cx (D1 I.M) (.e p.1) (.e p.2) (D1 I.M) := by
     intro e p hm _
     simp only [BundleInput.matcher] at hm
@@ -532,9 +545,10 @@ theorem bundle_refines_of_leaf {N : NumOps} (ρ : ExtOracle N) (hρ : OracleFlat
       have := hres _ nm hr
       subst this
       subst hp
-      exact .genE hleaf
+      exact .genE (leafSound I.M nm BL BR hac hMv hMI)
     · cases hm
   have hvr := subB_vr (cx := cx) hleaf' I.entry hentry
+  have hvrB := subB_vr (cx := cx) hleaf' B hB
   -- the preludes
   obtain ⟨hc0, ht0, hf0⟩ := init_sizes (N := N) externs
   have hlen0 : (initState externs : State N).cells.length = 0 := by rw [hc0]; rfl
@@ -544,14 +558,19 @@ theorem bundle_refines_of_leaf {N : NumOps} (ρ : ExtOracle N) (hρ : OracleFlat
     rw [hfold]; simp [postL, hlen0, ht0]
   subst hσB
   have hexR := exec_refPrelude_one (callClosure ρ (n + 1)) ρ n refRequireFn (a, BR) (initState externs)
-  -- related states in the context with the invariant
+  -- related states in the context with the invariant; the two module functions become a related pair
   have hs0 : SRel (VQ Cx.none) Cx.none initRel (initState externs : State N) (initState externs) :=
     SRel.init (VQ Cx.none) externs trivial
   have hs1 := ((hs0.extLeft (postL_ext I.M a BL externs)).extRight (postR_ext a BR externs)).bump
-  have hs : SRel (VQ cx) cx (initRel.bump (postL I.M a BL externs) (postR a BR externs)) (postL I.M a BL externs)
-      (postR a BR externs) :=
-    hs1.rebase (fun _ _ h => h) (establish_I I.M a BL BR externs (fun h => hac h.symm))
-  have he : EnvOK cx (initRel.bump (postL I.M a BL externs) (postR a BR externs)) (D1 I.M)
+  have hI := establish_I (N := N) I.M a BL BR externs (fun h => hac h.symm)
+  have hs : SRel (VQ cx) cx (startRel (postL (N := N) I.M a BL externs) (postR a BR externs)) (postL I.M a BL externs)
+      (postR a BR externs) := by
+    refine srel_rebaseF hs1 (fun _ _ h => h) rfl rfl (fun x y => x = 0 ∧ y = 1) ?_ ?_ hI
+    · rintro _ _ _ _ ⟨rfl, rfl⟩ ⟨rfl, rfl⟩; simp
+    · rintro _ _ ⟨rfl, rfl⟩
+      refine ⟨_, _, hI.1.f0, hI.2.1.f1, .nil, D1 I.M, ?_, (envOK_body (N := N) hMI hMr).loc⟩
+      exact VR.fnBody rfl (by simp) hvrB
+  have he : EnvOK cx (startRel (postL (N := N) I.M a BL externs) (postR a BR externs)) (D1 I.M)
       (⟨[(I.M, 0)], []⟩ : Env N) ⟨envR3, []⟩ := by
     refine ⟨.nil, fun nm hnm => ?_, fun nm hnm => ?_, fun nm hnm => ?_⟩
     · have h0 : ¬ I.M = nm := fun e => hnm (by simp [D1, e])
@@ -598,44 +617,15 @@ theorem bundle_refines_of_leaf {N : NumOps} (ρ : ExtOracle N) (hρ : OracleFlat
       · cases h
       · exact h.symm
 
-/-- **The call-site leaf holds for a module whose own body requires nothing** (`C05/Leaf.lean`): at levels 0 and 1
-both calls time out; at level ≥ 2 either both caches hold a box (related contents, `Coupled`) or both are empty —
-then both sides allocate their temporaries (content-PINNED, so that they survive the bodies), the two copies of the
-body run at level − 2 from related states (`reflB`), both sides box the first result and store the box in their
-cache (two private writes in one step), which re-establishes the invariant with the new boxes. -/
-theorem leafSound_of_leaf_module (M a : String) (B : Block) (hB : NoRefB (D1 M) B)
-    (hac : bytesOf a ≠ bytesOf "cache") (hMv : M ≠ "v") (hMI : M ≠ implName)
-    (hMr : M ≠ "__ref_require" ∧ M ≠ "__ref_modules" ∧ M ≠ "__ref_loaded") : LeafSound M a B B :=
-  fun _ hq => leaf_sound M a B hB (fun h => hac h.symm) hMv hMI hMr hq
-
-/-- **`bundle_refines_one_module`** — UNCONDITIONAL: one bundled module `a` whose own source contains no resolved
-`require` (its bundled and reference bodies coincide) and mentions no reserved name, REQUIRED anywhere in an
-arbitrary entry source (top level, inside closures, loops, conditionals; any number of times, or never): the bundle
-and the program with the textbook `require` have the same outcome — same values, same trace, same error, or both
-out of budget — at every level ≥ 1, for every flat oracle. -/
-theorem bundle_refines_one_module {N : NumOps} (ρ : ExtOracle N) (hρ : OracleFlat ρ) (externs : List String)
-    (I : BundleInput) (a : String) (B : Block) (n : Nat)
-    (hmods : I.mods = [(a, B)])
-    (hres : ∀ lit nm, I.res lit = some nm → nm = a)
-    (hMv : I.M ≠ "v") (hMI : I.M ≠ implName)
-    (hMr : I.M ≠ "__ref_require" ∧ I.M ≠ "__ref_modules" ∧ I.M ≠ "__ref_loaded")
-    (hac : bytesOf a ≠ bytesOf "cache")
-    (hentry : NoRefB (D1 I.M) I.entry)
-    (hBeq : subB I.matcher true B = subB I.matcher false B)
-    (hBL : NoRefB (D1 I.M) (subB I.matcher true B)) :
-    runProgram ρ (n + 1) externs I.bundle = runProgram ρ (n + 1) externs I.reference :=
-  bundle_refines_of_leaf ρ hρ externs I a B n hmods hres hMv hMI hMr hac hentry
-    (by rw [← hBeq]; exact leafSound_of_leaf_module I.M a _ hBL hac hMv hMI hMr)
 
 /-- at the oracle the harness runs no hypothesis on the oracle is left -/
 theorem bundle_refines_one_module_driver (externs : List String) (I : BundleInput) (a : String) (B : Block) (n : Nat)
     (hmods : I.mods = [(a, B)]) (hres : ∀ lit nm, I.res lit = some nm → nm = a)
     (hMv : I.M ≠ "v") (hMI : I.M ≠ implName)
     (hMr : I.M ≠ "__ref_require" ∧ I.M ≠ "__ref_modules" ∧ I.M ≠ "__ref_loaded")
-    (hac : bytesOf a ≠ bytesOf "cache") (hentry : NoRefB (D1 I.M) I.entry)
-    (hBeq : subB I.matcher true B = subB I.matcher false B) (hBL : NoRefB (D1 I.M) (subB I.matcher true B)) :
+    (hac : bytesOf a ≠ bytesOf "cache") (hentry : NoRefB (D1 I.M) I.entry) (hB : NoRefB (D1 I.M) B) :
     runProgram Shared.driverOracle (n + 1) externs I.bundle = runProgram Shared.driverOracle (n + 1) externs I.reference :=
-  bundle_refines_one_module _ driverOracle_flat externs I a B n hmods hres hMv hMI hMr hac hentry hBeq hBL
+  bundle_refines_one_module _ driverOracle_flat externs I a B n hmods hres hMv hMI hMr hac hentry hB
 
 -- non-vacuity: module `a` has an effectful body and returns a fresh table; the entry requires it at the top level,
 -- a second time inside a closure that is called later, and compares the two results
@@ -654,7 +644,7 @@ example (ρ : ExtOracle natOps) (hρ : OracleFlat ρ) (n : Nat) (hac : bytesOf "
     runProgram ρ (n + 1) ["emit"] exOneModule.bundle = runProgram ρ (n + 1) ["emit"] exOneModule.reference :=
   bundle_refines_one_module ρ hρ _ exOneModule "a" _ n rfl
     (by intro lit nm h; simp only [exOneModule] at h; split at h <;> simp_all)
-    (by decide) (by decide) (by decide) hac (NoRefB.ofBool (by decide)) (by rfl) (NoRefB.ofBool (by decide))
+    (by decide) (by decide) (by decide) hac (NoRefB.ofBool (by decide)) (NoRefB.ofBool (by decide))
 
 -- the entry of the example really contains two rewritten call sites
 example : subB exOneModule.matcher true exOneModule.entry = .mk
